@@ -378,4 +378,22 @@ example : Nng.PairSpec.pair1Judge
     [(.openSock "pair1" false, [.rv 0]), (.pipeAdd 0x11, [.pipe 0, .parm 0]), (.pipeAdd 0x11, [.pipe 1, .parm 1])] ≠ none := by
   decide
 
+/-- receive liveness is checked: with `recv-buffer` 1 the first arrival fits into the buffer, so the peer
+    must be read on; the judge rejects the trace without the new `parm` (pair.c re-arming only while the
+    buffer has room left) and accepts the one with it; the second arrival finds the buffer full and may stay
+    parked in the pipe -/
+example : Nng.PairSpec.pair0Judge
+    [(.openSock "pair0" false, [.rv 0]), (.setopt none "recv-buffer" "int" 1, [.rv 0]),
+     (.pipeAdd 0x10, [.pipe 0, .parm 0]), (.recvDone 0 (.ok [1]), [.rv 0])] ≠ none := by decide
+
+example : Nng.PairSpec.pair0Judge
+    [(.openSock "pair0" false, [.rv 0]), (.setopt none "recv-buffer" "int" 1, [.rv 0]),
+     (.pipeAdd 0x10, [.pipe 0, .parm 0]), (.recvDone 0 (.ok [1]), [.rv 0, .parm 0]),
+     (.recvDone 0 (.ok [2]), [.rv 0])] = none := by decide
+
+/-- ... and once the application has taken the parked message, the peer must be read again -/
+example : Nng.PairSpec.pair0Judge
+    [(.openSock "pair0" false, [.rv 0]), (.pipeAdd 0x10, [.pipe 0, .parm 0]), (.recvDone 0 (.ok [1]), [.rv 0]),
+     (.recv none 0 .nb, [.done 0 0 (some ⟨[], [1]⟩) false])] ≠ none := by decide
+
 end Nng.C08
